@@ -36,6 +36,9 @@ CHECKS["C15"] = dict(category="fault_enumeration", technique="recorded device wr
 CHECKS["C16"] = dict(category="fault_enumeration", technique="exhaustive single-fault injection over the device operation sequence and short-transfer schedules, validated by TLC against Trace_C16; chunked runs re-judged by the file-level TLA+ decoder",
    text="For each writer and reader program a fault-free run counts the device operations; the program is re-run once per operation index (reads, writes, seeks, flushes) with an error injected there: the call in progress must return Err, no panic, finalize Ok only if the write-back device holds the complete file. Short-transfer schedules (incl. 1-byte transfers) must give byte-identical files and identical read results; chunked runs are also decoded by the TLA+ decoder.",
    note="Single fault per run; behaviour after a failed call is not constrained; a fault inside a destructor cannot be reported. Trusts TLC and the instrumented device.", ref="6 C16")
+CHECKS["C10"] = dict(category="model_checking", technique="TLA+ E57Spec acceptance relation (ProtoVerdict, PointFits, call-order rules) checked by TLC trace validation of generated valid/invalid writer programs",
+   text="Programs probing the acceptance relation of the specification (every subset of each attribute group, invalid-state type variants, type rules, duplicates, constant/full-range records, extension names, wrong arity/type, integers just outside their range at every bit phase, abandoned writers, second projection, image without representation, finalize twice, empty GUID) run on the real API; TLC requires every call to return Ok or Err as the relation says (never panic) and every completed file to decode and read back.",
+   note=FILE_NOTE + " Name well-formedness is asserted by the generator; cases the documented rules do not settle are 'any'.", ref="6 C10")
 NOT_APPLICABLE = {}
 
 def main():
